@@ -2,12 +2,13 @@
 # tools/seed_matrix.sh <seed-id>...   (ids are directory names under /verif/seeded)
 # For each seeded change: scratch worktree + patch, run EVERY registered quick check against that tree
 # (VERIF_REPO_SRC), record which checks report it in seeded/<id>/matrix.txt, remove the worktree.
-cd /verif
+cd "$(dirname "$(realpath "$0")")/.." || exit 9
+V=$(pwd)
 checks=$(python3 -c "import json;print(' '.join(c['property_id'] for c in json.load(open('MANIFEST.json'))['checks']))")
 for id in "$@"; do
   wt=/tmp/mx-$id
   git -C /repo worktree add -q --detach $wt HEAD || continue
-  ( cd $wt && { git apply /verif/seeded/$id/patch.diff 2>/dev/null || git apply --3way /verif/seeded/$id/patch.diff; } ) || { echo "$id: patch does not apply"; git -C /repo worktree remove --force $wt; continue; }
+  ( cd $wt && { git apply $V/seeded/$id/patch.diff 2>/dev/null || git apply --3way $V/seeded/$id/patch.diff; } ) || { echo "$id: patch does not apply"; git -C /repo worktree remove --force $wt; continue; }
   mkdir -p $wt/out
   : > seeded/$id/matrix.txt
   for p in $checks; do
